@@ -281,9 +281,9 @@ func TestVerif_C06(t *testing.T) {
 		run.Assume("os.Hostname() is unavailable in this environment: hostname decoration is not judged")
 		hostname = ""
 	}
-	run.Rule("seeded histories on the real collector: traces of spans / span events / links with on-time, late or no root, decided by rules (driver-chosen rule, versioned name), deterministic-1 or stress relief; steps: span (both entry points), advance around SendDelay/TraceTimeout, reload toggling AddHostMetadataToTrace / AddRuleReasonToTrace / AddSpanCountToRoot / AddCountsToRoot / AdditionalAttributes (start values random too), sampler reload renaming the rules, back-to-back double reload (rules renamed, then an option-only reload with the same rules hash, both fired while the workers are held), coalesced reload (AddHostMetadataToTrace toggled by a reload announced while the monitor is held inside reloadConfigs and another reload signal is already pending), late spans and late roots, spans through ProcessSpanImmediately, ejections; non-trivial = a late root on a kept trace with further late spans AND at least two option reloads each followed by forwarded spans; distinct = (start options, set of option states under which spans were forwarded per path)")
+	run.Rule("seeded histories on the real collector: traces of spans / span events / links with on-time, late or no root, decided by rules (driver-chosen rule, versioned name), deterministic-1 or stress relief; steps: span (both entry points), advance around SendDelay/TraceTimeout, reload toggling AddHostMetadataToTrace / AddRuleReasonToTrace / AddSpanCountToRoot / AddCountsToRoot / AdditionalAttributes (start values random too), sampler reload renaming the rules, back-to-back double reload (rules renamed, then an option-only reload with the same rules hash, both fired while the workers are held), coalesced reload (AddHostMetadataToTrace toggled by a reload announced while the monitor is held inside reloadConfigs and another reload signal is already pending), late spans and late roots, spans through ProcessSpanImmediately, ejections; DryRun on in 25 % of the histories (dropped traces forwarded with the dry-run marker, late spans after a drop decision included); non-trivial = a late root on a kept trace with further late spans AND at least two option reloads each followed by forwarded spans; distinct = (start options, set of option states under which spans were forwarded per path)")
 	run.Assume("options in force for an event = those of the last reload step before the event's step (E1 quiesces after every reload and a reload step forwards nothing)")
-	run.Assume("received-span counts are taken from the driver's log of accepted spans; kept-decision capacity is far above the trace count; queues never overflow; DryRun off")
+	run.Assume("received-span counts are taken from the driver's log of accepted spans; kept-decision capacity is far above the trace count; queues never overflow; DryRun constant per history (on in a quarter of them); late roots of dry-run-dropped traces are not judged for counts")
 	run.Assume("config.MockConfig answers GetAddCountsToRoot with AddSpanCountToRoot; the collector gets a wrapper answering it from AddCountsToRoot instead")
 
 	maxSteps := run.N(70, 140)
@@ -306,7 +306,12 @@ func TestVerif_C06(t *testing.T) {
 		}
 		start := c06Opts{Host: rng.Bool(), Reason: rng.Bool(), SpanCount: rng.Bool(), Counts: rng.Chance(0.4), Attrs: genAttrs()}
 		ruleVer, reloadNo, doubleReloads, coalescedReloads := 0, 0, 0, 0
-		cfg := E1Config{Workers: workers, AddRuleReason: start.Reason, AddSpanCount: start.SpanCount, AddHostMeta: start.Host, Attributes: start.Attrs,
+		keepP := 0.85
+		dryRun := rng.Chance(0.25) // constant per history: every trace is forwarded, dropped ones marked dryrun.kept=false
+		if dryRun {
+			keepP = 0.5 // more would-be-dropped traces, whose late spans take their own branch
+		}
+		cfg := E1Config{Workers: workers, DryRun: dryRun, AddRuleReason: start.Reason, AddSpanCount: start.SpanCount, AddHostMeta: start.Host, Attributes: start.Attrs,
 			Traces:   config.TracesConfig{SendTicker: config.Duration(tick), SendDelay: config.Duration(sd), TraceTimeout: config.Duration(tt), SpanLimit: uint(verifkit.Pick(rng, 0, 0, 4)), MaxExpiredTraces: 3000},
 			Samplers: map[string]*config.V2SamplerChoice{"env-rules": c06RulesChoice(0), "env-det": {DeterministicSampler: &config.DeterministicSamplerConfig{SampleRate: 1}}}}
 		e := e1Start(t, cfg)
@@ -334,7 +339,7 @@ func TestVerif_C06(t *testing.T) {
 			}
 		}
 		newTrace := func(mode string) *c06Trace {
-			tr := &c06Trace{ID: rng.Hex(32), Env: verifkit.Pick(rng, "env-rules", "env-rules", "env-det"), Keep: rng.Chance(0.85), Mode: mode}
+			tr := &c06Trace{ID: rng.Hex(32), Env: verifkit.Pick(rng, "env-rules", "env-rules", "env-det"), Keep: rng.Chance(keepP), Mode: mode}
 			traces = append(traces, tr)
 			byID[tr.ID] = tr
 			return tr
@@ -575,6 +580,12 @@ func TestVerif_C06(t *testing.T) {
 				case tr.Mode == "stress" || a.Step > d:
 					path = "late"
 				}
+				base := path
+				// dry run: a trace its sampler drops is forwarded anyway; its late spans leave through a separate branch
+				droppedDry := dryRun && tr.Mode == "sampler" && tr.Env == "env-rules" && !tr.Keep
+				if droppedDry {
+					path += "-of-dry-run-dropped-trace"
+				}
 				changed := func(get func(c06Opts) bool) string {
 					if get(o) != get(start) {
 						return "changed-by-reload"
@@ -636,7 +647,13 @@ func TestVerif_C06(t *testing.T) {
 					case d >= 0:
 						v, dbl := verInForce(d)
 						want = fmt.Sprintf("keep-v%d!", v)
-						if dbl && path == "on-time" {
+						if droppedDry {
+							want = fmt.Sprintf("drop-v%d!", v)
+							if base == "late" {
+								want = "late arriving span" // a drop decision keeps no reason on record
+							}
+						}
+						if dbl && base == "on-time" {
 							wantCls = "/after-back-to-back-reloads"
 							run.Count("reason_checks_after_back_to_back_reloads", 1)
 						}
@@ -653,7 +670,14 @@ func TestVerif_C06(t *testing.T) {
 					}
 				}
 				// root counts (roots forwarded by the trace sampler only)
-				if a.Span.Kind != "root" || a.Stressed || stressTouchedBeforeDecision || d < 0 {
+				// dry-run marker on every span that took the sampler path
+				if dryRun && !a.Stressed {
+					run.Count("dryrun_marker_checks_"+path, 1)
+					if got, ok := ev.Fields[config.DryRunFieldName].(bool); !ok || got != !droppedDry {
+						run.Violation("C06/dryrun-marker/"+path+"/missing-or-wrong", fmt.Sprintf("dry run: span %s forwarded at step %d has %s=%v, the sampler's decision for its trace is keep=%v", a.Span.ID, ev.Step, config.DryRunFieldName, ev.Fields[config.DryRunFieldName], !droppedDry), wit(!droppedDry))
+					}
+				}
+				if a.Span.Kind != "root" || a.Stressed || stressTouchedBeforeDecision || d < 0 || (droppedDry && base == "late") {
 					continue
 				}
 				limit := d - 1 // on-time root: spans received before the decision step
